@@ -203,6 +203,21 @@ pub fn doc_wrap(fs: &[&str]) -> String {
     })
 }
 
+/// doc-wrap-any: the same on the tree the tolerant reader builds for ANY text (ERROR nodes and
+/// tokens included): validates the model's panic sites; no property clause is about it.
+/// record: PANIC | nerr=<n>|t1=..|it1=..|t2=..
+pub fn doc_wrap_any(fs: &[&str]) -> String {
+    let s = unhex(fs[0]);
+    let c = parse_cfg(fs[1]);
+    guard(move || {
+        let (d, errs) = Deb822::from_str_relaxed(&s);
+        let r1 = ws_doc(&d, &c);
+        let t1 = r1.to_string();
+        let r2 = ws_doc(&r1, &c);
+        format!("nerr={}|t1={}|it1={}|t2={}", errs.len(), hex(&t1), doc_s(&r1), hex(&r2.to_string()))
+    })
+}
+
 /// control-wrap: Control::wrap_and_sort on the document and Source/Binary::wrap_and_sort on
 /// its paragraphs.  fields: [hex text, settings (ind:iel:mll used), table (model side only)]
 /// record: strict=ERR | strict=OK|it0=..|t1=..|it1=..|t2=..|rr=..|src=<para>|bin=<para>/<para>..
@@ -317,6 +332,7 @@ pub fn streams() -> Vec<(&'static str, crate::StreamFn)> {
     vec![
         ("para-wrap", para_wrap as crate::StreamFn),
         ("doc-wrap", doc_wrap as crate::StreamFn),
+        ("doc-wrap-any", doc_wrap_any as crate::StreamFn),
         ("control-wrap", control_wrap as crate::StreamFn),
         ("control-fmt-table", control_fmt_table as crate::StreamFn),
     ]
